@@ -135,6 +135,48 @@ Proof.
     rewrite <- abs_IZR. rewrite <- IZR_2p by (pose proof prec_pos; lia). apply IZR_le. exact H.
 Qed.
 
+(** signs: a finite result is not a NaN, so the sign rule of the operation applies *)
+Lemma fin_not_nan : forall x : bf, Fin x -> is_nan x = false.
+Proof. intros [s|s| |s m e H]; cbn; intros F; try reflexivity; discriminate. Qed.
+
+Lemma gdiv_sign : forall x y : bf, Fin x -> B2R y <> 0 ->
+  Rabs (rnd (B2R x / B2R y)) < TOP -> Bsign (gdiv x y) = xorb (Bsign x) (Bsign y).
+Proof.
+  intros x y Fx Hy H. pose proof (Bdiv_correct prec emax Hprec Hmax mode_NE x y Hy) as C.
+  cbn [round_mode] in C. fold (rnd (B2R x / B2R y)) in C. fold TOP in C.
+  rewrite (Rlt_bool_true _ _ H) in C. destruct C as (_ & C2 & C3). apply C3.
+  apply fin_not_nan. unfold Fin in *. rewrite C2. exact Fx.
+Qed.
+
+Lemma gmul_sign : forall x y : bf, Fin x -> Fin y ->
+  Rabs (rnd (B2R x * B2R y)) < TOP -> Bsign (gmul x y) = xorb (Bsign x) (Bsign y).
+Proof.
+  intros x y Fx Fy H. pose proof (Bmult_correct prec emax Hprec Hmax mode_NE x y) as C.
+  cbn [round_mode] in C. fold (rnd (B2R x * B2R y)) in C. fold TOP in C.
+  rewrite (Rlt_bool_true _ _ H) in C. destruct C as (_ & C2 & C3). apply C3.
+  apply fin_not_nan. unfold Fin in *. rewrite C2, Fx, Fy. reflexivity.
+Qed.
+
+(** an unsigned integer converts to a float with sign bit 0 (+0.0 for 0) *)
+Lemma gofZ_sign : forall z, (0 <= z <= 2 ^ prec)%Z -> Bsign (gofZ z) = false.
+Proof.
+  intros z H. pose proof (binary_normalize_correct prec emax Hprec Hmax mode_NE z 0 false) as C.
+  cbv zeta in C. cbn [round_mode] in C.
+  assert (E : F2R (Float radix2 z 0) = IZR z) by (unfold F2R; cbn; ring).
+  rewrite E in C. fold (rnd (IZR z)) in C. fold TOP in C.
+  rewrite (rnd_fmt _ (fmt_IZR z ltac:(lia))) in C.
+  rewrite Rlt_bool_true in C.
+  - destruct C as (_ & _ & C3). unfold gofZ. rewrite C3.
+    destruct (Rcompare_spec (IZR z) 0) as [L|_|_]; try reflexivity.
+    exfalso. assert (0 <= IZR z) by (apply (IZR_le 0); lia). lra.
+  - apply Rle_lt_trans with (bpow radix2 prec); [|apply bpow_prec_lt_TOP].
+    rewrite <- abs_IZR. rewrite <- IZR_2p by (pose proof prec_pos; lia). apply IZR_le. lia.
+Qed.
+
+(** two finite floats with the same value and the same sign bit are the same float *)
+Lemma fl_eq : forall x y : bf, Fin x -> Fin y -> B2R x = B2R y -> Bsign x = Bsign y -> x = y.
+Proof. intros. apply B2R_Bsign_inj; assumption. Qed.
+
 (** * relative error of one rounding in the normal range *)
 Lemma uu_pos : 0 < uu. Proof. apply bpow_gt_0. Qed.
 Lemma uu_lt_1 : uu < 1.
